@@ -15,12 +15,13 @@ func init() {
 			ID: "C07", Title: "Leaving Established withdraws everything the session contributed", Level: "other",
 			Technique:   "typestate must-pass-through on go/cfg with callee summaries (every exit from Established is dominated by uninit), init/dispose pairing, freshness of the RIBs built on re-establishment",
 			DesignRef:   "DESIGN.md §4 C07",
-			Decided:     "(1) in the methods of establishedState every return of a state other than Established is preceded on every path by uninit (directly or through a method that always calls it); the only exemptions are the init-failed return and returns under `fsm.isBMP` (BMP pseudo sessions have no lifecycle); uninit disposes both address families and clears ribsInitialized; (2) each registration effect of fsmAddressFamily.init (Adj-RIB-In→Loc-RIB, Loc-RIB→Adj-RIB-Out, Adj-RIB-Out→update sender, update sender start, contributing ASN / cluster ID) has its inverse in dispose on the same objects and under the same condition; (3) init builds the Adj-RIB-In, Adj-RIB-Out and update sender from constructor calls (fresh, never reused) and dispose drops the old ones; the Established entry runs init unless ribsInitialized; (4) the unregistration itself withdraws post-policy paths (C05 clause 4, cross-referenced).",
+			Decided:     "(1) in the methods of establishedState every return of a state other than Established is preceded on every path by uninit (directly or through a method that always calls it); the only exemptions are the init-failed return and returns under `fsm.isBMP` (BMP pseudo sessions have no lifecycle); uninit disposes both address families and clears ribsInitialized; (2) each registration effect of fsmAddressFamily.init (Adj-RIB-In→Loc-RIB, Loc-RIB→Adj-RIB-Out, Adj-RIB-Out→update sender, update sender start, contributing ASN / cluster ID) has its inverse in dispose on the same objects and under the same condition; (3) init builds the Adj-RIB-In, Adj-RIB-Out and update sender from constructor calls (fresh, never reused) and dispose drops the old ones; the Established entry runs init unless ribsInitialized; (5) the events that end a session reach the FSM: no send on FSM.eventCh (ManualStop from peer.stop, Cease, AutomaticStart) sits in a select with a default clause or a timer alternative; (4) the unregistration itself withdraws post-policy paths (C05 clause 4, cross-referenced).",
 			NotDecided:  "that the withdrawals reach every Loc-RIB client and peer (C04/C08/C10); timer behaviour; histories of session events.",
 			TrustedBase: stdTrusted,
 		},
 		Run: runC07,
 		Controls: []Control{
+			{Name: "manual-stop-droppable", File: "protocols/bgp/server/peer.go", Old: "\t\tfsm.eventCh <- ManualStop\n", New: "\t\tselect {\n\t\tcase fsm.eventCh <- ManualStop:\n\t\tdefault:\n\t\t}\n", Expect: "stop-event-delivered"},
 			{Name: "notification-exit-without-uninit", File: "protocols/bgp/server/fsm_established.go", Old: "\tstopTimer(s.fsm.connectRetryTimer)\n\ts.uninit()\n\ts.fsm.con.Close()\n\ts.fsm.connectRetryCounter++\n\treturn newIdleState(s.fsm), \"Received NOTIFICATION\"", New: "\tstopTimer(s.fsm.connectRetryTimer)\n\ts.fsm.con.Close()\n\ts.fsm.connectRetryCounter++\n\treturn newIdleState(s.fsm), \"Received NOTIFICATION\"", Expect: "exit-established-uninit"},
 			{Name: "dispose-keeps-adjribout-registered", File: "protocols/bgp/server/fsm_address_family.go", Old: "\tf.rib.Unregister(f.adjRIBOut)\n", New: "", Expect: "init-dispose-paired"},
 			{Name: "uninit-keeps-ribs-initialized", File: "protocols/bgp/server/fsm_established.go", Old: "\ts.fsm.stateMu.Lock()\n\ts.fsm.ribsInitialized = false\n\ts.fsm.stateMu.Unlock()\n", New: "", Expect: "exit-established-uninit"},
@@ -36,6 +37,7 @@ func runC07(c *core.Ctx) {
 	}
 	p := c.P
 	uninitRest(c, p, uninit)
+	eventSendsNotDroppable(c, "stop-event-delivered", 3)
 }
 
 // exitEstablishedUninit: every return that leaves Established is dominated by uninit (shared by C07 and C23).
